@@ -13,6 +13,7 @@ NOT_DECIDED = "byte-exact equality of returned slices with what a writer wrote; 
 ASSUMPTIONS = ["crate built with feature ram_bundle"]
 
 RULES = {
+    "C20.R9": lambda ctx: ramrules.parse_rejections(ctx, "C20.R9"),
     "C20.RG": lambda ctx: __import__("rules.foundations", fromlist=["x"]).no_global_state(ctx, "C20.RG"),
     "C20.R8": lambda ctx: __import__("rules.foundations", fromlist=["x"]).iterator_overrides(ctx, "C20.R8"),
     "C20.R1": lambda ctx: ramrules.layout(ctx, "C20.R1"),
